@@ -2,17 +2,35 @@
 """writes MANIFEST.json from the per-property metadata below (kept in one place so it stays valid)."""
 import json, os
 VERIF = os.path.dirname(os.path.dirname(os.path.abspath(__file__)))
-NOTE = ("Trusted: Coq 8.16.1 kernel; Coq Reals axioms (sig_not_dec, sig_forall_dec, functional_extensionality_dep, classic) where the theorem is over R; "
-        "hand-written Gallina model tied to /repo by bit-exact correspondence (extracted OCaml, ExtrOcamlBasic only, float record in coq/ocaml/drvlib.ml, libm proxy for np.exp/log/log10/power); "
-        "generated facts by harness/gen_facts.py (ast); exact-real idealisation of float arithmetic. See DESIGN.md section 9.")
+NOTE = ("Trusted: Coq 8.16.1 kernel (coqc; thorough tier adds coqchk); axioms reported by Print Assumptions = Coq's Reals axioms "
+        "(ClassicalDedekindReals.sig_not_dec, sig_forall_dec, FunctionalExtensionality.functional_extensionality_dep, Classical_Prop.classic) where a theorem is over R, "
+        "FloatAxioms.* (primitive-float specification, Coq stdlib) only through the interval tactic in the texture-box lemmas (C16/C18), none for the Z/list/bool theorems; "
+        "hand-written Gallina model generic in the number type, tied to /repo on every run by bit-exact correspondence (extracted OCaml with ExtrOcamlBasic only — no Extract Constant — "
+        "float instance and token protocol in coq/ocaml/drvlib.ml, libm proxy for np.exp/log/log10/power installed by the harness) and, for source-level facts, by the fail-closed ast translator harness/gen_facts.py; "
+        "theorems over R are about exact real arithmetic (IEEE rounding, NaN/inf outside them). Property theorem statements are pinned in coq/theories/Properties/*.v. See DESIGN.md sections 9 and 14.")
+T = "Coq proof (kernel-checked theorems on a Gallina model) + bit-exact extracted-model correspondence + implementation-side monitor for the replay"
 CHECKS = {
- "C17": ("Theorems over exact reals for all 37 regenerated catalogue rows and ALL real arguments: water-stress coefficients in [0,1] and antitone in depletion, "
-         "heat/cold coefficients in [0,1] and monotone, GDD range/monotone (3 methods), canopy growth/decline curves monotone within [0,CCx], "
-         "cc_required_time inverts the growth curve, fCO2 = 1 at reference and monotone. Model tied to the code by bit-exact L1 (14k cases quick) and fCO2 via real initialisation; "
-         "a lattice monitor on the implementation supplies the failing input.", "8 (C17)",
-         "Coq proof over R + catalogue obligation by vm_compute + bit-exact extracted-model correspondence"),
+ "C01": ("Per-process conservation theorems over exact reals for profiles of any length (drainage, infiltration incl. the back-up loop, evaporation, transpiration, capillary rise with its rounding allowance, groundwater inflow, pre-irrigation) and the composition theorem day_balance on the Day.v plumbing model for EVERY choice of processes: the rows written by a day close the balance. Every process model is tied bit-for-bit by its L1 suite, the plumbing by replaying real simulations day by day; carry-over between days and season resets by the reset frame theorems and the monitor.", "8 (C01), 14", T),
+ "C02": ("SCS split theorem (Runoff + Infl = P, 0 <= Runoff <= P for effective curve number in (0,100], incl. the rounded antecedent-moisture adjustment cn_adjusted_le_100), surface identity Infl_rep + Runoff = P + applied irrigation for every branch of infiltration, runoff and negative-infiltration bounds (negative only without bunds and with ponded water), dry-day theorem; hypotheses needed from upstream (FluxOut <= Ksat) proved for drainage.", "8 (C02)", T),
+ "C03": ("in_bounds (th_dry <= th <= th_s) is proved invariant for every water process and for the day as a whole (day_bounds), ponding within [0, bund height] and 0 without bunds, root-zone storage non-negative; the one exception is stated exactly (capillary rise may overshoot by 5e-5 when fcadj = th_s: capillary_in_bounds_refuted) and measured by the monitor.", "8 (C03)", T),
+ "C04": ("Sign/order theorems per process: Irr >= 0, runoff >= 0, deep percolation >= 0, CR in [0,99], GwIn >= 0, 0 <= Es <= EsPot (EsPot >= 0 from parameter ranges), 0 <= Tr <= TrPot, exact lower bound of the net-irrigation requirement (-0.01 mm per root-zone compartment), off-season zeros by the orchestration (off_season_wiring) and by transpiration/irrigation themselves.", "8 (C04)", T),
+ "C05": ("Canopy envelope as an invariant over all assignment sites of canopy_cover and any sequence of days (canopy_inv_run: 0 <= CC <= CCx, CC <= CC_ns), rooting depth range/monotonicity/water-table limit for any profile with penetrabilities in [0,100] (after the root fix), harvest-index reference monotone and <= HI0, adjusted index cap, biomass monotone, gdd range (kernel). Finiteness only as definedness of modelled operations; the YldWC = 0 catalogue defect is a listed finding.", "8 (C05)", T),
+ "C06": ("Biomass-gain identity with the yield-formation factor in [WPy/100, 1], yield identities read from the row the orchestration writes, summary row = that day's values and the seasonal irrigation counter (Day.v, every Procs), exactly one summary row per harvested season in season order written on its harvest step (Clock.v invariant sums_inv, every physics).", "8 (C06)", T),
+ "C07": ("Clock theorems for EVERY physics (axiom-free): rows strictly increasing in step index and carrying their own index, one day forward / jump to the next planting date, dap counting, season end at first maturity or harvest date, termination within n_steps with the stated final day; Gregorian date functions inverse and monotone for ALL integers; the season list built at initialisation has the configured planting days in consecutive years from the first one >= start and always satisfies the clock well-formedness (season_list_wf).", "8 (C07)", T),
+ "C08": ("The reset assigns exactly the regenerated reset list and leaves the rest unchanged (reset_frame, reset_fields_match); every state field not reset is in a hand-justified whitelist (obligation over tables regenerated from the source on every run) and the first day of a season provably does not depend on the blanked carried fields (day1_dead, under four named per-process hypotheses). Two defects found this way were repaired (cc0_adj; earlier e_pot/t_pot, thini).", "8 (C08)", T),
+ "C09": ("run_steps_add, partition_eq (every sequence of calls that finishes yields the model of one uninterrupted run), overshoot_stops, fuel-independence — for every physics, axiom-free; tied by the clock suite with random call partitions against the real run_model.", "8 (C09)", T),
+ "C10": ("PARTIAL by nature: theorems over the store-site table regenerated from the source (no store on module-level objects, default-argument objects; enumerated whitelist) decide the logical core; process / hash-seed / history behaviour lives in the CPython runtime and is explored by the monitor (fresh interpreters per hash seed, A-then-B, interleaved stepping), not proved.", "8 (C10)", "Coq proof over translator-generated store-site tables + implementation-vs-implementation monitor"),
+ "C11": ("Initialisation write-backs into user objects are enumerated by theorem over the regenerated store-site table; re-initialising from the written-back weather table / CO2 object / harvest date gives the same structures (init_idempotent_weather, co2_init_idempotent, default_harvest_explicit); pandas-internal state is trusted and explored by re-run / rebuild monitors.", "8 (C11)", T),
+ "C12": ("No store site in aquacrop.solution/timestep is rooted at profile, soil, management, groundwater, weather or clock-date objects (enumerated exceptions), proved over the regenerated table; the reset changes only listed state fields; parameters do not occur in the result type of the day model; monitor hashes every parameter object after every step.", "8 (C12)", "Coq proof over translator-generated store-site tables + frame theorems on Day.v + per-step hash monitor"),
+ "C13": ("Strategy contracts on the irrigation model: rainfed/off-season/net zero, daily and seasonal caps, interval days, schedule exactness (with the re-indexing spec of the dated schedule), constant depth, threshold iff and amount, as the code computes them; 18+4 theorems.", "8 (C13)", T),
+ "C14": ("prefix_causal for every physics: weather changed from day t on cannot change a row or summary row before t when the reset does not read the weather (regenerated fact: only under CalendarType == 2); binding depends only on rows inside the window; monitor perturbs, clips, extends.", "8 (C14)", T),
+ "C15": ("bind_perm / bind_extra_col / bind_reindex / bind_extra_rows / bind_by_date for every number type (axiom-free) on the table model of read_weather_inputs + matrix construction; suite covers all 120 column permutations; the positional-binding defect was repaired earlier.", "8 (C15)", T),
+ "C16": ("PARTIAL by nature: catalogue obligations over the regenerated crop table, exact classification of initialisation rejections, termination of run loop and profile deepening, definedness of every process model under well-formedness are proved; NaN/inf propagation and library exceptions are explored by the catalogue-sweep monitor only. Open findings listed in known_findings.txt.", "8 (C16)", "Coq proof (definedness, termination, catalogue obligations) + catalogue-sweep monitor"),
+ "C17": ("Theorems over exact reals for all 37 regenerated catalogue rows and ALL real arguments: water-stress coefficients in [0,1] and antitone in depletion, heat/cold coefficients in [0,1] and monotone, GDD range/monotone (3 methods), canopy growth/decline curves monotone within [0,CCx], cc_required_time inverts the growth curve, fCO2 = 1 at reference and monotone.", "8 (C17)", "Coq proof over R + catalogue obligation by vm_compute + bit-exact extracted-model correspondence"),
+ "C18": ("build_wf (well-formed profile from valid layers), geometry for whole-centimetre thickness lists, layer contiguity, deepening spec incl. unconditional termination, initial water content = independent specification (Layer and Depth methods), texture ordering on five boxes (interval); refuted parts stated (stale zBot/zMid after deepening: open finding; texture corners).", "8 (C18)", T),
+ "C19": ("fcadj range/far/pointwise, inflow post-condition (saturated below the table), capillary cap and CR <= 99, balance with rounding allowance, no-table zeros, and the daily series spec (step function / interpolation by date, first/last held) after the series fix.", "8 (C19)", T),
+ "C20": ("Two-configuration equalities on the process models: mulch off/neutral, bund height without bunds, other-strategy parameters per method, neutral irrigation settings give request 0, efficiency without irrigation, explicit default harvest date = None; the curve-number flag gating is plumbing tied by the day replay.", "8 (C20)", T),
 }
-NOT_YET = {}
 def main():
     props = [json.loads(l) for l in open(os.path.join(VERIF, "properties.jsonl"))]
     checks = []
@@ -29,15 +47,15 @@ def main():
                            "level_claimed": {"category": "proof", "text": text, "design_ref": "DESIGN.md section " + ref},
                            "level_note": NOTE, "technique": tech})
         else:
-            na.append({"property_id": pid, "reason": NOT_YET.get(pid, "not yet claimed: model/theorems for this property are still being built in this development (see DESIGN.md section 8); the technique applies")})
+            na.append({"property_id": pid, "reason": "not claimed"})
     m = {"version": 1, "setup_cmd": "./setup.sh",
          "hooks": {"guard": "AQUACROP_VERIF", "enable": "no source hooks: the harness observes /repo by rebinding names in module namespaces; nothing to enable",
                    "baseline_off_cmd": "cd /repo && /venv/bin/python -m pytest -ra -q -p no:cacheprovider --timeout=900 --continue-on-collection-errors",
                    "source_commits": [], "add_only": True},
          "engines": [{"name": "coq-proof+correspondence", "path": "coq/ harness/", "serves_properties": sorted(CHECKS),
-                      "kind_free_text": "Coq 8.16 theorems over a hand-written Gallina model generic in the number type; extracted OCaml run bit-for-bit against the Python implementation; generated catalogue facts; implementation-side monitors for replay search"}],
+                      "kind_free_text": "Coq 8.16 theorems over a hand-written Gallina model generic in the number type; extracted OCaml run bit-for-bit against the Python implementation; tables generated from the source by an ast translator; implementation-side monitors for replay search"}],
          "checks": checks, "not_applicable": na,
-         "notes": "Every check: regenerate facts from /repo, make the Coq development, re-check Properties/Cnn.v with Print Assumptions, run the correspondence suites, run the monitor, decide. Known findings: known_findings.txt."}
+         "notes": "Every check: regenerate facts from /repo, make the Coq development, re-check Properties/Cnn*.v with Print Assumptions, run the correspondence suites, run the monitor, decide. Known findings: known_findings.txt."}
     with open(os.path.join(VERIF, "MANIFEST.json"), "w") as f:
         json.dump(m, f, indent=1)
 if __name__ == "__main__":
